@@ -77,6 +77,93 @@ fn addr32(v: Vec<u8>) -> ContentAddress {
     ContentAddress(a)
 }
 
+pub fn p_state(t: &mut Toks) -> R<MapState> {
+    let mut raw = HashMap::new();
+    let st = t.list(|t| {
+        let c = addr32(t.bytes()?);
+        let k = t.words()?;
+        let r = match t.tok()? {
+            "v" => Ok(t.words()?),
+            "e" => Err(t.int()?),
+            "r" => {
+                let vs = t.list(|t| t.words())?;
+                raw.insert((c.clone(), k.clone()), vs);
+                return Ok(None);
+            }
+            _ => return Err("state entry".into()),
+        };
+        Ok(Some(((c, k), r)))
+    })?;
+    Ok(MapState(Arc::new(st.into_iter().flatten().collect()), Arc::new(raw)))
+}
+
+fn show_data(d: &[chks::DataOutput]) -> String {
+    let ms: Vec<String> = d.iter().map(|o| match o { chks::DataOutput::Memory(m) => show_words(&m.iter().copied().collect::<Vec<_>>()) }).collect();
+    format!("[{}]", ms.join(","))
+}
+
+pub fn run_api(entry: &str, modes: &str, sol_ix: usize, c: &CheckCase, post: MapState) -> String {
+    let preds = c.preds.clone();
+    let get_pred = move |a: &PredicateAddress| preds.get(a).cloned().unwrap_or_default();
+    let progs = c.progs.clone();
+    let get_prog = move |a: &ContentAddress| progs.get(a).cloned().unwrap_or_default();
+    let state = (c.state.clone(), post);
+    let config = Arc::new(CheckPredicateConfig { collect_all_failures: c.collect_all });
+    let mode_of = |ch: char| if ch == '0' { RunMode::Outputs } else { RunMode::Checks };
+    let mut cache: HashMap<u16, chks::Cache> = HashMap::new();
+    let mut out = vec![];
+    match entry {
+        "cac" => {
+            let mut set = SolutionSet { solutions: c.sols.clone() };
+            for ch in modes.chars() {
+                match chks::check_and_compute_solution_set(&state, set.clone(), get_pred.clone(), get_prog.clone(), config.clone(), mode_of(ch), &mut cache) {
+                    Ok((gas, s2)) => {
+                        out.push(show_result(Ok((gas, s2.clone()))));
+                        set = s2;
+                    }
+                    Err(e) => {
+                        out.push(show_result(Err(e)));
+                        break;
+                    }
+                }
+            }
+        }
+        "csp" => {
+            let set = Arc::new(SolutionSet { solutions: c.sols.clone() });
+            for ch in modes.chars() {
+                match chks::check_set_predicates(&state, set.clone(), get_pred.clone(), get_prog.clone(), config.clone(), mode_of(ch), &mut cache) {
+                    Ok(o) => {
+                        let ds: Vec<String> = o.data.iter().map(|d| format!("{}:{}", d.solution_index, show_data(&d.data))).collect();
+                        out.push(format!("ok {} {}", o.gas, ds.join(" ")));
+                    }
+                    Err(e) => {
+                        out.push(show_result(Err(e)));
+                        break;
+                    }
+                }
+            }
+        }
+        "cp" => {
+            let set = Arc::new(SolutionSet { solutions: c.sols.clone() });
+            let Some(sol) = c.sols.get(sol_ix) else { return "bad-index".into() };
+            let pred = get_pred(&sol.predicate_to_solve);
+            let mut pc: chks::Cache = HashMap::new();
+            for ch in modes.chars() {
+                let ctx = chks::Ctx { run_mode: mode_of(ch), cache: &mut pc };
+                match chks::check_predicate(&state, set.clone(), pred.clone(), get_prog.clone(), sol_ix as u16, &config, ctx) {
+                    Ok((gas, data)) => out.push(format!("ok {} {}", gas, show_data(&data))),
+                    Err(e) => {
+                        out.push(format!("err {}", show_pred_error(&e)));
+                        break;
+                    }
+                }
+            }
+        }
+        _ => return "bad-entry".into(),
+    }
+    out.join(" | ")
+}
+
 pub fn p_check_case(t: &mut Toks) -> R<CheckCase> {
     let collect_all = t.nat()? == 1;
     let sols = t.list(p_solution)?;
@@ -398,6 +485,19 @@ pub fn run(fam: &str, t: &mut Toks) -> Option<R<String>> {
                     p.join(" ")
                 };
                 Ok(if strip(&got) == strip(&exp) { "ok".into() } else { format!("FAIL got `{}` expected `{}`", got, exp) })
+            }
+            "api" => {
+                // the single-mode public entry points with an explicitly given post-state view:
+                //   api <entry> <modes> <solution index> <case> <post-state entries>
+                //   entry: cac = check_and_compute_solution_set, csp = check_set_predicates, cp = check_predicate
+                //   modes: 0 = Outputs, 1 = Checks, 01 = Outputs then Checks over one shared cache
+                let entry = t.tok()?.to_string();
+                let modes = t.tok()?.to_string();
+                let sol_ix = t.nat()?;
+                let c = p_check_case(t)?;
+                let post = p_state(t)?;
+                t.done()?;
+                Ok(run_api(&entry, &modes, sol_ix, &c, post))
             }
             "o_ref" => {
                 // C01: expectation computed by the generator's reference semantics of the predicate graph
